@@ -647,6 +647,13 @@ def run(tier, seed, replay=None):
                                   f"returns {v!r}, the marginalisation (interval run of the proved model) gives "
                                   f"{None if iv is None else float(iv[0])!r}",
                                   dict(shape=shape, n=nbig, subst=sub, branch_scale=x, evaluation=k + 1, value=v))
+    # ... and trees on which it does NOT underflow to zero but only into the subnormal range (a few significant bits left)
+    try:
+        band_fs, n_band = c03.band_findings(random.Random(seed + 31), tier, "C01")
+    except Exception as e:  # noqa
+        band_fs, n_band = [(f"C01:raises:subnormal-band:{type(e).__name__}", f"{type(e).__name__}: {str(e)[:160]}", dict())], 0
+    for f in band_fs:
+        rep.violation(*f)
     rep.timings["large_trees"] = round(time.time() - t0, 2)
     rep.rule = ("all rooted binary topologies for 3..4 (quick) / 3..6 (thorough) taxa with random child order + random/"
                 "caterpillar/balanced trees to 8 (12) taxa; alignments over the 18-symbol alphabet (both cases) with "
@@ -658,6 +665,7 @@ def run(tier, seed, replay=None):
                 "evaluation); non-trivial = >= 3 taxa; distinct = distinct case")
     rep.extra = dict(input_distribution=dist, model_undefined=undefined, exhaustive_topologies=len(pool),
                      traces_validated_against_impl=len(idx), mismatches=len(mism), histories=nh,
+                     trees_with_site_likelihoods_in_the_subnormal_band=n_band,
                      translator_units=["datatype tables -> gen/G_datatype.v",
                                        "pruning loop update + returned expression (tip partials, tip states) -> gen/G_prune.v"])
     return rep.finish()
